@@ -185,7 +185,9 @@ class C18(Prop):
         "alive together, generate_flows / generate_fib interleaved in all six orders, each compared with its own model, A's network "
         "optionally simulated after all calls on B; canary: around 35% of the fattree/fib/e2e cases a fixed FatTree(4) with fixed flows "
         "is built before, re-read after and rebuilt after the case and compared with recorded tables; hub: a second Hub built "
-        "without arguments alive next to the first. non-trivial = at least one packet / one flow / "
+        "without arguments alive next to the first; repeated use of ONE object: fib / e2e / twotrees cases with one or two earlier "
+        "flow sets (generate_flows + generate_fib with other seeds, sizes, tcp flag) on the same FatTree before the observed one, the "
+        "tables after EVERY call compared with the model of that flow set alone; hub / fair switch / e2e used across several env.run() calls. non-trivial = at least one packet / one flow / "
         "k >= 4; distinct by hash of the case")
     trusted_base = [
         "recorders stand in for outputs, end devices, hub endpoints and hub port devices; in the 'switch' kind and the e2e variant 'fair' the "
@@ -251,7 +253,9 @@ class C18(Prop):
         kb = ka if rng.random() < 0.65 else rng.choice([2, 4, 6])
         return {"kind": "twotrees", "ka": ka, "kb": kb, "seeda": rng.randrange(10 ** 6), "seedb": rng.randrange(10 ** 6),
                 "nfa": rng.randint(1, 8), "nfb": rng.randint(1, 8), "tcpa": rng.random() < 0.5, "tcpb": rng.random() < 0.5,
-                "order": rng.choice(self.ORDERS), "sim": rng.random() < 0.4, "npk": rng.randint(1, 2)}
+                "order": rng.choice(self.ORDERS), "sim": rng.random() < 0.4, "npk": rng.randint(1, 2),
+                # a second flow set on A and/or B after the interleaving (other seed, other size, tcp flag flipped)
+                "again": rng.choice(["", "", "a", "b", "ab"]), "nf2": rng.randint(1, 6)}
 
     def _flow_ids(self, rng, n, known):
         out = []
@@ -340,8 +344,9 @@ class C18(Prop):
         ends = [[f, rng.randint(0, 9)] for f in rng.sample(range(-3, 12), rng.randint(0, 2))]
         known = [a for a, _ in (fib or [])] + [a for a, _ in ends]
         flows, ops = self._reconf(rng, "switch", self._flow_ids(rng, n, known), n)
+        runs = sorted(set(rng.randrange(len(flows)) for _ in range(rng.choice([0, 0, 1, 2]))))   # env.run() before these packets
         return {"kind": "switch", "sw": "fair", "nports": n, "server": rng.choice(SERVERS), "ncls": rng.randint(1, 3),
-                "fib": fib, "ends": ends, "flows": flows, "reconf": ops}
+                "fib": fib, "ends": ends, "flows": flows, "reconf": ops, "runs": runs}
 
     def gen_hub(self, rng):
         """a hub in use: the constructor population, then attach / send / rename actions in any order"""
@@ -364,6 +369,8 @@ class C18(Prop):
                         script.append(["send", sd])
             elif r < 0.38 and count > 0:
                 script.append(["rename", rng.randrange(count), rng.randint(0, 6)])
+            elif r < 0.43:
+                script.append(["run"])                     # env.run(until=now+1): the hub is used across Environment runs
             else:
                 u = rng.random()
                 if u < 0.35 and senders:
@@ -399,8 +406,12 @@ class C18(Prop):
     def gen_fib(self, rng, tier):
         if rng.random() < 0.6:
             k = rng.choice([2, 4, 4, 6, 8] if tier == "quick" else [2, 4, 4, 6, 8, 10])
-            return {"kind": "fib", "graph": "fattree", "k": k, "seed": rng.randrange(10 ** 6),
+            case = {"kind": "fib", "graph": "fattree", "k": k, "seed": rng.randrange(10 ** 6),
                     "nflows": rng.randint(1, 12), "tcp": rng.random() < 0.5}
+            # repeated use of ONE FatTree object: earlier flow sets (other seeds, more flows, other tcp flag) before this one
+            case["earlier"] = [{"seed": rng.randrange(10 ** 6), "nflows": rng.randint(1, 12), "tcp": rng.random() < 0.6}
+                               for _ in range(rng.choice([0, 0, 1, 1, 2]))]
+            return case
         # a random connected-ish graph and hand-made flows
         n = rng.randint(2, 9)
         edges = []
@@ -415,9 +426,14 @@ class C18(Prop):
         for a, b in edges:
             adj[a].append(b)
             adj[b].append(a)
+        style = rng.random()
+        earlier = [{"flows": self._hand_flows(rng, n, adj, rng.random()), "tcp": rng.random() < 0.6} for _ in range(rng.choice([0, 0, 1, 1, 2]))]
+        return {"kind": "fib", "graph": "random", "n": n, "edges": edges, "flows": self._hand_flows(rng, n, adj, style),
+                "tcp": rng.random() < 0.5, "earlier": earlier}
+
+    def _hand_flows(self, rng, n, adj, style):
         flows = []
         ids = rng.sample(range(0, 40), rng.randint(1, 6))
-        style = rng.random()
         for f in ids:
             if style > 0.85 and rng.random() < 0.3:
                 f = rng.choice([f + 10000, -f - 1, 9999])
@@ -435,13 +451,18 @@ class C18(Prop):
                 flows.append([f, path])
         if style > 0.95 and flows:
             flows.append([flows[0][0], flows[-1][1]])     # duplicate flow id
-        return {"kind": "fib", "graph": "random", "n": n, "edges": edges, "flows": flows, "tcp": rng.random() < 0.5}
+        return flows
 
     def gen_e2e(self, rng, tier):
         k = rng.choice([2, 4, 4, 6] if tier == "quick" else [2, 4, 4, 6, 8])
         case = {"kind": "e2e", "k": k, "seed": rng.randrange(10 ** 6), "nflows": rng.randint(1, 8), "tcp": rng.random() < 0.5,
                 "npk": rng.randint(1, 3), "variant": rng.choice(["portwire", "fair", "fair-real"]), "server": rng.choice(SERVERS),
                 "ncls": rng.randint(1, 3)}
+        # the FatTree object has been used before: earlier flow sets / tables on the same object; the simulation runs in two
+        # env.run() segments
+        case["earlier"] = [{"seed": rng.randrange(10 ** 6), "nflows": rng.randint(1, 10), "tcp": rng.random() < 0.6}
+                           for _ in range(rng.choice([0, 0, 1, 2]))]
+        case["split_run"] = rng.random() < 0.5
         if case["variant"] == "fair-real" and case["server"] == "SP":
             # the real SP scheduler busy-loops (no yield) as soon as a flow id differs from its class id
             # (observed 2026-09-28; it is C13's element): the real-scheduler variant runs WFQ / DRR / VirtualClock only
@@ -573,10 +594,12 @@ class C18(Prop):
         else:
             raise ValueError(op)
 
-    def _demux_run(self, d, put, log, case):
+    def _demux_run(self, d, put, log, case, env=None):
         from onl.packet import Packet
         res = []
         for j, f in enumerate(case["flows"]):
+            if env is not None and j in case.get("runs", []):
+                env.run(until=env.now + 1)             # the switch is used across several Environment runs
             for op in case.get("reconf", []):
                 if op[0] == j:
                     self._apply_impl(d, op, log, case.get("raising", []))
@@ -649,10 +672,13 @@ class C18(Prop):
             sw.demux.fib = {f: p for f, p in case["fib"]}
         for f, dv in case["ends"]:
             sw.demux.ends[f] = Rec(["end", dv], log)
-        res = self._demux_run(sw.demux, sw.put, log, case)
         sim_raised = None
         try:
-            env.run(until=5)
+            res = self._demux_run(sw.demux, sw.put, log, case, env)
+        except Exception as e:
+            return {"construct_raised": ["env.run between packets"] + _exc(e)}
+        try:
+            env.run(until=env.now + 5)
         except Exception as e:
             sim_raised = _exc(e)
         return {"res": res, "sched": slog, "wiring": wiring, "sim_raised": sim_raised}
@@ -704,6 +730,8 @@ class C18(Prop):
             elif act[0] == "rename":
                 if act[1] < len(eps):
                     eps[act[1]].element_id = "e%d" % act[2]
+            elif act[0] == "run":
+                env.run(until=env.now + 1)
             else:
                 del log[:]
                 raised = None
@@ -822,38 +850,48 @@ class C18(Prop):
         return entries, consistent
 
     def run_fib(self, case):
-        import random
         import networkx as nx
         from onl.topo import FatTree
-        from onl.flow import Flow
         if case["graph"] == "fattree":
             ft = FatTree(case["k"])
-            random.seed(case["seed"])
-            try:
-                flows = ft.generate_flows(case["nflows"])
-            except Exception as e:
-                return {"raised": ["generate_flows"] + _exc(e)}
-            fl = [[flows[key].fid, flows[key].src, flows[key].dst, list(flows[key].path)] for key in flows]
-            keys_ok = all(key == flows[key].fid for key in flows)
         else:
             ft = FatTree(2)
             g = nx.Graph()
             g.add_nodes_from(range(case["n"]))
             g.add_edges_from([tuple(e) for e in case["edges"]])
             ft._topo = g
-            flows = {i: Flow(f, p[0], p[-1], path=list(p)) for i, (f, p) in enumerate(case["flows"])}
-            fl = [[f, p[0], p[-1], list(p)] for f, p in case["flows"]]
+        earlier = [self._fib_round(ft, case["graph"], spec) for spec in case.get("earlier", [])]
+        obs = self._fib_round(ft, case["graph"], case)          # the same object, used again
+        obs["earlier"] = earlier
+        return obs
+
+    def _fib_round(self, ft, graph, spec):
+        """one generate_flows + generate_fib on ft (or generate_fib with hand-made flows), and everything read back"""
+        import random
+        from onl.flow import Flow
+        if graph == "fattree":
+            random.seed(spec["seed"])
+            try:
+                flows = ft.generate_flows(spec["nflows"])
+            except Exception as e:
+                return {"raised": ["generate_flows"] + _exc(e)}
+            fl = [[flows[key].fid, flows[key].src, flows[key].dst, list(flows[key].path)] for key in flows]
+            keys_ok = all(key == flows[key].fid for key in flows)
+        else:
+            flows = {i: Flow(f, p[0], p[-1], path=list(p)) for i, (f, p) in enumerate(spec["flows"])}
+            fl = [[f, p[0], p[-1], list(p)] for f, p in spec["flows"]]
             keys_ok = True
         n, canonical, adj = self._graph_obs(ft.topo)
-        raised = None
         try:
-            ft.generate_fib(flows, tcp=case["tcp"]) if case["tcp"] else ft.generate_fib(flows)
+            ft.generate_fib(flows, tcp=spec["tcp"]) if spec["tcp"] else ft.generate_fib(flows)
         except Exception as e:
-            raised = _exc(e)
-            return {"raised": raised, "flows": fl, "n": n, "canonical": canonical, "adj": adj}
-        entries, consistent = self._tables(ft.topo)
-        return {"raised": None, "flows": fl, "n": n, "canonical": canonical, "adj": adj, "entries": entries,
-                "consistent": consistent, "keys_ok": keys_ok}
+            return {"raised": _exc(e), "flows": fl, "n": n, "canonical": canonical, "adj": adj}
+        return self._fib_obs(ft, fl, keys_ok)
+
+    @staticmethod
+    def _tt_tcp(case, x):
+        """the tcp flag of tree x's CURRENT tables"""
+        return (not case["tcp" + x]) if x in case.get("again", "") else case["tcp" + x]
 
     def run_twotrees(self, case):
         import random
@@ -873,6 +911,12 @@ class C18(Prop):
                 else:
                     trees[x].generate_fib(flows[x], tcp=case["tcp" + x])
                     snap[x] = self._tables(trees[x].topo)[0]          # as read right after its own generate_fib
+            for x in case.get("again", ""):               # the same object used a second time: other flows, tcp flipped
+                random.seed(case["seed" + x] + 1)
+                flows[x] = trees[x].generate_flows(case["nf2"])
+                fl[x] = [[flows[x][key].fid, flows[x][key].src, flows[x][key].dst, list(flows[x][key].path)] for key in flows[x]]
+                trees[x].generate_fib(flows[x], tcp=not case["tcp" + x])
+                snap[x] = self._tables(trees[x].topo)[0]
         except Exception as e:
             return {"setup_raised": _exc(e)}
         obs = {}
@@ -885,7 +929,7 @@ class C18(Prop):
                 o = {"raised": _exc(e), "flows": fl[x], "canonical": True, "n": 0, "adj": []}
             obs[x] = o
         if case["sim"]:
-            sub = {"kind": "e2e", "k": case["ka"], "tcp": case["tcpa"], "npk": case["npk"], "variant": "portwire", "server": "SP", "ncls": 1}
+            sub = {"kind": "e2e", "k": case["ka"], "tcp": self._tt_tcp(case, "a"), "npk": case["npk"], "variant": "portwire", "server": "SP", "ncls": 1}
             try:
                 obs["sim"] = self._e2e_sim(trees["a"], flows["a"], sub)
             except Exception as e:
@@ -901,6 +945,9 @@ class C18(Prop):
         from onl.packet import Packet
         try:
             ft = FatTree(case["k"])
+            for spec in case.get("earlier", []):           # the object has been used before
+                random.seed(spec["seed"])
+                ft.generate_fib(ft.generate_flows(spec["nflows"]), tcp=spec["tcp"])
             random.seed(case["seed"])
             flows = ft.generate_flows(case["nflows"])
             ft.generate_fib(flows, tcp=case["tcp"])
@@ -992,6 +1039,9 @@ class C18(Prop):
         env.process(source(env))
         sim_raised = None
         try:
+            if case.get("split_run"):
+                env.run(until=0.6)                     # two Environment runs: traffic of the second is injected after the first returned
+                env.run(until=1.3)
             env.run(until=case["npk"] + 40)
         except Exception as e:
             sim_raised = _exc(e)
@@ -1026,11 +1076,11 @@ class C18(Prop):
             o = obs[x]
             if o.get("raised") or not o["snap_equal"]:
                 return "false"
-            sub = {"kind": "fib", "graph": "fattree", "k": case["k" + x], "tcp": case["tcp" + x]}
+            sub = {"kind": "fib", "graph": "fattree", "k": case["k" + x], "tcp": self._tt_tcp(case, x)}
             ts.append("(" + self.agree_fib(sub, o) + ")")
             ts.append("(" + self.agree_fattree({"kind": "fattree", "k": case["k" + x]}, o["shape"]) + ")")
         if case["sim"]:
-            sub = {"kind": "e2e", "k": case["ka"], "tcp": case["tcpa"], "variant": "portwire"}
+            sub = {"kind": "e2e", "k": case["ka"], "tcp": self._tt_tcp(case, "a"), "variant": "portwire"}
             ts.append("(" + self.agree_e2e(sub, obs["sim"]) + ")")
         return " && ".join(ts)
 
@@ -1123,6 +1173,8 @@ class C18(Prop):
                 ts.append("HAttach {| ep_id := %s; ep_port := %s |}" % (cf.z(act[1]), cf.b(act[2])))
             elif act[0] == "rename":
                 ts.append(f"HRename {cf.nat(act[1])} {cf.z(act[2])}")
+            elif act[0] == "run":
+                continue
             else:
                 ts.append(f"HSend {cf.z(act[1])}")
         return cf.lst(ts)
@@ -1175,6 +1227,16 @@ class C18(Prop):
                 f"{pods(L['edge'])} {pods(L['leaf'])} {nlist(obs['hosts'])} {cf.nat(obs['nedges'])}")
 
     def agree_fib(self, case, obs):
+        """every use of the object against the model of THAT flow set alone"""
+        ts = []
+        for spec, o in zip(case.get("earlier", []), obs.get("earlier", [])):
+            ts.append("(" + self._agree_fib1({**case, **spec}, o) + ")")
+        if len(obs.get("earlier", [])) != len(case.get("earlier", [])):
+            return "false"
+        ts.append("(" + self._agree_fib1(case, obs) + ")")
+        return " && ".join(ts)
+
+    def _agree_fib1(self, case, obs):
         if not obs.get("canonical", False):
             return "false"
         flows = flows_term([[f, p] for f, _, _, p in obs["flows"]])
@@ -1271,19 +1333,20 @@ class C18(Prop):
         if "setup_raised" in obs:
             return [f"instances-interfere-raises: two FatTree objects ({case['ka']}, {case['kb']}), order {case['order']}: {obs['setup_raised']}"]
         msgs = []
-        ctx = f"FatTree A(k={case['ka']}) and B(k={case['kb']}) alive together, order '{case['order']}'"
+        ctx = f"FatTree A(k={case['ka']}) and B(k={case['kb']}) alive together, order '{case['order']}'" + \
+            (f", then a second flow set on {case['again'].upper()}" if case.get("again") else "")
         for x in "ab":
             o = obs[x]
             if o.get("raised"):
                 msgs.append(f"instances-interfere: {ctx}: reading tree {x.upper()} raised {o['raised']}")
                 continue
-            sub = {"kind": "fib", "graph": "fattree", "k": case["k" + x], "tcp": case["tcp" + x]}
+            sub = {"kind": "fib", "graph": "fattree", "k": case["k" + x], "tcp": self._tt_tcp(case, x)}
             for m in self.mon_fib(sub, o)[:1] + self.mon_fattree({"kind": "fattree", "k": case["k" + x]}, o["shape"])[:1]:
                 msgs.append(f"instances-interfere: {ctx}: tree {x.upper()} no longer satisfies its own clauses: {m}")
             if not o["snap_equal"]:
                 msgs.append(f"instances-interfere: {ctx}: the tables of tree {x.upper()} changed after its own generate_fib (the other tree's calls touched them)")
         if case["sim"]:
-            sub = {"kind": "e2e", "k": case["ka"], "tcp": case["tcpa"], "variant": "portwire"}
+            sub = {"kind": "e2e", "k": case["ka"], "tcp": self._tt_tcp(case, "a"), "variant": "portwire"}
             for m in self.mon_e2e(sub, obs["sim"])[:1]:
                 msgs.append(f"instances-interfere: {ctx}: network built from A's tables after all calls on B: {m}")
         return msgs
@@ -1420,6 +1483,8 @@ class C18(Prop):
             if act[0] == "rename":
                 if act[1] < len(pop):
                     pop[act[1]][0] = act[2]
+                continue
+            if act[0] == "run":
                 continue
             s, r = act[1], next(res)
             when = f" (after {nattach} add_endpoint calls, {len(pop)} endpoints attached)" if nattach else ""
@@ -1560,6 +1625,17 @@ class C18(Prop):
         return True
 
     def mon_fib(self, case, obs):
+        nr = len(case.get("earlier", [])) + 1
+        msgs = []
+        for i, (spec, o) in enumerate(list(zip(case.get("earlier", []), obs.get("earlier", []))) + [(case, obs)]):
+            for m in self._mon_fib1({**case, **{k_: v for k_, v in spec.items() if k_ != "earlier"}}, o):
+                if nr > 1:
+                    sig, rest = m.split(":", 1)
+                    m = f"{sig}: [generate_fib call {i + 1} of {nr} on the same FatTree object]{rest}"
+                msgs.append(m)
+        return msgs
+
+    def _mon_fib1(self, case, obs):
         msgs = []
         if not obs.get("canonical", False):
             return ["fib-node-names: graph nodes are not 0..n-1"]
@@ -1705,6 +1781,9 @@ class C18(Prop):
             if case["k"] > 2:
                 yield {**case, "k": case["k"] - 2}
         elif kd == "fib":
+            e = case.get("earlier", [])
+            for i in range(len(e)):
+                yield {**case, "earlier": e[:i] + e[i + 1:]}
             if case["graph"] == "fattree":
                 if case["nflows"] > 1:
                     yield {**case, "nflows": case["nflows"] - 1}
@@ -1721,6 +1800,9 @@ class C18(Prop):
                         yield {**case, "flows": case["flows"][:i] + [[f, p[:-1]]] + case["flows"][i + 1:]}
                         yield {**case, "flows": case["flows"][:i] + [[f, p[1:]]] + case["flows"][i + 1:]}
         elif kd == "twotrees":
+            if case.get("again"):
+                yield {**case, "again": ""}
+                yield {**case, "again": case["again"][:1]}
             if case["sim"]:
                 yield {**case, "sim": False}
             for x in "ab":
@@ -1731,6 +1813,11 @@ class C18(Prop):
             if case["ka"] == case["kb"] and case["ka"] > 2:
                 yield {**case, "ka": case["ka"] - 2, "kb": case["kb"] - 2}
         elif kd == "e2e":
+            e = case.get("earlier", [])
+            for i in range(len(e)):
+                yield {**case, "earlier": e[:i] + e[i + 1:]}
+            if case.get("split_run"):
+                yield {**case, "split_run": False}
             if case["nflows"] > 1:
                 yield {**case, "nflows": case["nflows"] - 1}
                 yield {**case, "nflows": 1}
@@ -1811,6 +1898,12 @@ class C18(Prop):
             fl = obs.get("flows", [])
             if case["variant"] != "portwire" and len(set(f % case["ncls"] for f, _, _, _ in fl)) < len(fl):
                 keys.append("e2e:flows-share-class")
+        if case.get("earlier"):
+            keys.append(kd + ":object-reused(%d earlier flow sets)" % len(case["earlier"]))
+        if case.get("again"):
+            keys.append("twotrees:second-flow-set")
+        if case.get("split_run") or case.get("runs") or any(a[0] == "run" for a in case.get("script", [])):
+            keys.append(kd + ":several-env-runs")
         if case.get("canary"):
             keys.append("canary:" + kd)
         if case.get("twin"):
